@@ -54,7 +54,8 @@ fn main() {
                 };
                 (r["case"].as_u64().unwrap(), fault)
             });
-            e3c::run(seed, shard, nshards, a.u64("cases", if thorough { 12 } else { 1 }), a.u64("max_faults", if thorough { 400 } else { 60 }) as usize, a.u64("parallel", 4) as usize, only, &mut rep);
+            let md = replay.as_ref().and_then(|r| r.get("mine_down")).and_then(|b| b.as_bool()).unwrap_or(false);
+            e3c::run(seed, shard, nshards, a.u64("cases", if thorough { 12 } else { 1 }), a.u64("max_faults", if thorough { 400 } else { 60 }) as usize, a.u64("parallel", 4) as usize, only, md, &mut rep);
         }
         "e3o" => {
             let only = replay.as_ref().map(|r| {
